@@ -17,6 +17,21 @@ CHECKS = {
             "Same engine as C01 with different seeds: SolveFailure iff the enumerated reference solution set is empty; members pinned must be accepted, non-members rejected; any non-SolveFailure exception from inside the library on a valid program is a violation (bucketed by exception type and innermost library frame); wide programs are satisfiable by construction (anchored at a hidden assignment) or contradictory by construction.",
             "Satisfiability is exact only for programs whose random space is <= 2^13 assignments; wide programs rely on construction. Diagnostic flags at defaults.",
             "5/C02"),
+    "C05": ("exploration",
+            "Hypothesis-generated hard+soft programs; exact greedy-by-priority reference and result-only maximality over the enumerated solution space",
+            "Small-domain programs mixing hard and soft statements (nested under if/else/implies, two class blocks, inline softs, call sequences). The hard solution set is enumerated; the result must be in it, must be maximal w.r.t. the soft terms, and must lie in the greedy set for an order consistent with the stated partial priority order; hard-satisfiable systems must never fail.",
+            "Order between softs of different class blocks is left open (any interleaving accepted).",
+            "5/C05"),
+    "C14": ("exploration",
+            "Hypothesis-generated programs and call sequences; inferred ranges observed through the PYVSC_VERIF hook compared with projections of the enumerated solution set; seeded coupon check",
+            "For every call of a generated call sequence the range list the library hands to the swizzler (hook payload) must contain every feasible value of every random field, and be the whole type range for unmentioned fields; on tiny unsigned programs a coupon-collector run must produce every solution.",
+            "Needs the pre_solve hook (PYVSC_VERIF=1); the probability clause is decided through the range containment the property names plus the coupon check under the stated floor.",
+            "5/C14"),
+    "C15": ("exploration",
+            "Hypothesis-generated dist programs judged by enumeration and pinned probes; seeded draw campaigns judged by exact binomial tails",
+            "Hard part on every generated dist program (zero-weight and unlisted values never returned, listed values accepted, two-directional pins); frequency part with exact two-sided binomial tests per entry and per value in a range; distselect/randselect under generated global seeds.",
+            "alpha = 1e-9 per run split over 2000 tests; frequencies only for dist fields nothing else constrains, disjoint entries.",
+            "5/C15"),
     "C10": ("exploration",
             "Hypothesis-generated bin specifications, exhaustive value sweep per specification, differential against an independent bin-partition model",
             "Generated coverpoint specifications (bin / bin_array with every count form, overlapping and unordered ranges, auto-bins, enum auto-bins, ignore/illegal bins, iff by field or callable) sampled with every value of the coverpoint's type; after every sample the per-bin increment vector (regular, ignore, illegal) must equal the reference membership vector.",
